@@ -1015,6 +1015,7 @@ func legacyFindings(k *h.Keys, base []byte, c *h.VCase, desc, class string) []h.
 
 func runLegacy(s *summary, k *h.Keys, root *h.Rng, n int, thorough bool, addCase addCaseFn) {
 	r0 := root.Fork()
+	kindsDone := map[int]bool{}
 	for bi, lb := range legacyBases(k, r0) {
 		r := root.Fork()
 		for mi, vo := range legacyModes(r, lb.ents) {
@@ -1044,7 +1045,33 @@ func runLegacy(s *summary, k *h.Keys, root *h.Rng, n int, thorough bool, addCase
 					fpm = append(fpm, m)
 				}
 			}
-			ms = append(sample(r, ms, n), sample(r, fpm, 8)...)
+			// one instance of every kind of catalogue rewrite, once per base image (under the first
+			// legacy mode that accepts it)
+			var kindsOnce []h.Mutation
+			if !kindsDone[bi] {
+				kindsDone[bi] = true
+				si, _ := h.DecodeImage(lb.img)
+				byKind := map[string][]h.Mutation{}
+				var kinds []string
+				for _, m := range ms {
+					var di int
+					if k, _ := fmt.Sscanf(m.What, "desc%d ", &di); k == 1 && di < len(si.Descs) && si.Descs[di].Used {
+						rest := m.What[strings.Index(m.What, " ")+1:]
+						if si.Descs[di].Type == h.DataSignature {
+							rest = "signature " + rest
+						}
+						if byKind[rest] == nil {
+							kinds = append(kinds, rest)
+						}
+						byKind[rest] = append(byKind[rest], m)
+					}
+				}
+				for _, kd := range kinds {
+					kindsOnce = append(kindsOnce, h.Pick(r, byKind[kd]))
+				}
+				s.OpKinds["catalogue-kinds-always-tried"] += len(kinds)
+			}
+			ms = append(append(sample(r, ms, n), sample(r, fpm, 8)...), kindsOnce...)
 			ms = append(ms, boundaryShifts(lb.img)...)
 			ms = append(ms, forgedLegacy(lb.img)...)
 			for _, m := range ms {
